@@ -96,7 +96,7 @@ MORE2 = {  # worlds added with the repair-review rounds 6-8
 MORE3 = {  # worlds added with the sixth round of seeded changes and review round 9
  "C04": "; a constrained type with pre_validate / post_validate hooks of its own alone at the top of a call; sets and frozensets of typing.Any given elements they cannot hash",
  "C06": "; the library's marker for 'not provided' as an input value",
- "C07": "; an aliased case-insensitive field with a dependant, a property deleter that fails after it has changed the instance",
+ "C07": "; an aliased case-insensitive field with a dependant, a property deleter that fails after it has changed the instance; a settable property nothing depends on (the late-failing setter is the only reason for a rollback)",
  "C08": "; bare Generator / AsyncIterator annotations (a decoration that fails is a violation); a third signature with positional-only parameters (one defaulted, left out or given) next to **kw: str and keywords named like them",
  "C10": "; runs under invalid_values='exclude' with dependencies on required fields, a fourth typed output under a cap of 2, additional items typed by a constrained leaf",
  "C11": "; unions pairing a sequence with a mapping (the value's own kind first under the policies), the key policy as the only one that is on, pair-list inputs with an unknown discriminator, fields required by mode that have a default",
